@@ -1,17 +1,18 @@
-(* output/format.rs::Format::get_indent and its callers' indentation arithmetic. *)
+(* output/format.rs::Format::get_indent and its callers' indentation arithmetic
+   (as of the fix "cap indentation at the length of the static indent string"). *)
 From Coq Require Import NArith Bool.
 From RV Require Import Gen.PanicSites.
 Open Scope N_scope.
 
 Inductive indent_res : Type :=
 | IndentOk (len : N)        (* the returned slice has this many bytes *)
-| IndentPanic.              (* slice index out of range *)
+| IndentPanic.              (* slice index out of range, or `INDENT.len() - 1` underflows *)
 
-(* `&INDENT[..=len]`: valid iff len < INDENT.len() *)
+(* `&INDENT[..=len.min(INDENT.len() - 1)]` *)
 Definition get_indent (compressed : bool) (len : N) : indent_res :=
   if compressed then IndentOk 0
-  else if len <? indent_static_len then IndentOk (len + 1)
-  else IndentPanic.
+  else if indent_static_len =? 0 then IndentPanic
+  else IndentOk (N.min len (indent_static_len - 1) + 1).
 
 (* CssBuf: every open block adds 2 to the indent *)
 Definition indent_of_depth (depth : N) : N := 2 * depth.
